@@ -138,7 +138,7 @@ def run_hist_check(prop: str, tier: str, verif_seed: int) -> int:
                 kind="hist", profile=profile, tier=tier, seeds=None, budget_s=T["budget_s"], hard_timeout=T["budget_s"] * 2 + 120,
                 min_budget_s=T["min_budget_s"], max_minimise=2,
             )  # fmt: skip
-            jf = dict(job, seeds=own[:n_fault], population="fault", budget_s=T["budget_s"] * fault_frac + 5)
+            jf = dict(job, seeds=own[:n_fault], population="fault")
             jc = dict(job, seeds=own[n_fault:] + twins, population="clean", twin_seeds=twins + own[n_fault : n_fault + T["twin"]], keep_log_for_twins=True, sample_steps=own[n_fault : n_fault + 1])
             n_planned += len(jf["seeds"]) + len(jc["seeds"])
             procs.append(spawn(jf, env, f"{prop}-{tier}-w{wave}-g{g}-fault"))
